@@ -77,7 +77,7 @@ def classes():
         from neuroml.nml import nml
         cs = [c for _n, c in inspect.getmembers(nml, inspect.isclass)
               if "member_data_items_" in c.__dict__ and c.__module__ == nml.__name__]
-        cs.sort(key=lambda c: inspect.getsourcelines(c)[1])
+        cs.sort(key=lambda c: c.__dict__["__init__"].__code__.co_firstlineno)
         _CLASSES = {c.__name__: c for c in cs}
     return _CLASSES
 
